@@ -99,6 +99,28 @@ MinSqDist(shape, v, T) ==
     LET ds == {SqDist(shape, v, t) : t \in T} IN CHOOSE d \in ds : \A e \in ds : d <= e
 
 (***************************************************************************)
+(* Long-range distances.  Squared distances of 46341 voxels and more do    *)
+(* not fit TLC's 32-bit integers; the value q * 2^20 + r is carried as the *)
+(* pair <<q, r>> with 0 <= r < 2^20 (coordinate differences below 2^20).   *)
+(***************************************************************************)
+K20 == 1048576
+SqBig(x) ==
+    LET a  == x \div 1024
+        b  == x % 1024
+        m  == 2 * a * b
+        r0 == (m % 1024) * 1024 + b * b
+    IN <<a * a + m \div 1024 + r0 \div K20, r0 % K20>>
+AddBig(p, q)  == LET r == p[2] + q[2] IN <<p[1] + q[1] + r \div K20, r % K20>>
+LessBig(p, q) == p[1] < q[1] \/ (p[1] = q[1] /\ p[2] < q[2])
+RECURSIVE SumBig(_)
+SumBig(s) == IF s = <<>> THEN <<0, 0>> ELSE AddBig(Head(s), SumBig(Tail(s)))
+SqDistBig(shape, u, v) ==
+    SumBig([a \in 1..Len(shape) |-> SqBig(Abs(Coord(shape, u, a) - Coord(shape, v, a)))])
+\* a nearest voxel of the non-empty set T
+NearestBig(shape, v, T) ==
+    CHOOSE t \in T : \A e \in T : ~LessBig(SqDistBig(shape, v, e), SqDistBig(shape, v, t))
+
+(***************************************************************************)
 (* Geometric transformations of label maps (C10).                          *)
 (***************************************************************************)
 \* embed arr (shape s) into a zero array of shape t at offset off (0-based, per axis)
